@@ -70,6 +70,7 @@ class CFG:
         self.exit = self.new("exit", loc=func.get("l"))
         self.labels = {}
         self.gotos = []
+        self.cur_loc = func.get("l")
         body = func.get("body")
         ends = self.stmt(body, [(self.entry.id, None)], None, None)
         self.link(ends, self.exit.id)   # falling off the end
@@ -91,7 +92,7 @@ class CFG:
     # `frm` is a list of dangling edges (node id, label); every builder
     # returns the list of dangling edges leaving the construct.
     def seq_node(self, kind, ast, frm, loc=None):
-        n = self.new(kind, ast, loc or (ast.get("l") if isinstance(ast, dict) else None))
+        n = self.new(kind, ast, loc or (ast.get("l") if isinstance(ast, dict) else None) or self.cur_loc)
         self.link(frm, n.id)
         return n
 
@@ -150,6 +151,8 @@ class CFG:
             # unreachable code still gets nodes (labels may make it reachable)
             pass
         k = s.get("k")
+        if s.get("l"):
+            self.cur_loc = s["l"]
         if k == "block":
             cur = frm
             for c in s["s"]:
